@@ -25,6 +25,34 @@ def _norm(fn, op):
     return e, neg
 
 
+class Conds(dict):
+    """{expr: value}; .callbb maps the block of the call that produced a discriminant to its value"""
+
+    def __init__(self, *a, **k):
+        super().__init__(*a, **k)
+        self.callbb = {}
+
+
+def _defining_call_block(fn, op, hops=6):
+    """block of the call whose result (possibly through moves / Not) is this switch operand"""
+    while hops > 0 and op.get("k") in ("copy", "move") and not op["pl"]["p"]:
+        ds = fn.defs().get(op["pl"]["l"], [])
+        if len(ds) != 1:
+            return None
+        d = ds[0]
+        if d[0] == "call":
+            return d[1]
+        rv = d[3]["rv"]
+        if rv["k"] == "use":
+            op = rv["op"]
+        elif rv["k"] == "unop" and rv["op"] == "Not":
+            op = rv["a"]
+        else:
+            return None
+        hops -= 1
+    return None
+
+
 def dominating_conditions(fn, bb, cache=None):
     """{expr: value} for every switch block that dominates `bb` and whose outcome is determined
     on every path to `bb` (bb is reachable from exactly one successor of the switch, not counting
@@ -33,7 +61,7 @@ def dominating_conditions(fn, bb, cache=None):
         cache = fn.__dict__.setdefault("_domcond_cache", {})
     if bb in cache:
         return cache[bb]
-    out = {}
+    out = Conds()
     doms = fn.dominators().get(bb, set())
     for s in sorted(doms):
         if s == bb:
@@ -73,6 +101,10 @@ def dominating_conditions(fn, bb, cache=None):
             out[e] = ("conflict", out[e], val)
         else:
             out[e] = val
+        # also key the decision by the block of the call that produced the discriminant
+        cb = _defining_call_block(fn, t["discr"])
+        if cb is not None:
+            out.callbb[cb] = val
     cache[bb] = out
     return out
 
@@ -95,6 +127,6 @@ def has_cond(conds, regex, value):
     import re
     rx = re.compile(regex)
     for e, v in conds.items():
-        if rx.search(e) and v == value:
+        if isinstance(e, str) and rx.search(e) and v == value:
             return True
     return False
